@@ -88,6 +88,9 @@ func (r *Run) Sample(v interface{}) {
 	}
 }
 
+// NSamples returns the number of samples recorded so far.
+func (r *Run) NSamples() int { return len(r.samples) }
+
 // State records a visited state key; reports whether it was new.
 func (r *Run) State(k string) bool {
 	if _, ok := r.states[k]; ok {
@@ -125,6 +128,9 @@ func (r *Run) Add(kind string, c json.RawMessage, res *Result) bool {
 	}
 	for _, o := range res.Outcomes {
 		r.Outcome(o)
+	}
+	if len(r.samples) < 2 && len(res.Data) > 2 && kind != "merge" {
+		r.samples = append(r.samples, json.RawMessage(res.Data)) // every evidence file shows at least a couple of real cases
 	}
 	if res.Died {
 		class := "worker-died:" + PanicLine(res.Stderr)
